@@ -1,5 +1,5 @@
 (* C05 - after start-up every block has a valid output, taken from the documented sources. *)
-From Verif Require Import Values Init InitProofs.
+From Verif Require Import Values Init InitProofs InitFatalProofs.
 Open Scope list_scope.
 Open Scope Z_scope.
 
@@ -51,6 +51,37 @@ Theorem C05_finishes_within_timeout : forall l now fin b tmo d sc,
   In (d, b, sc) (snd (run_tasks l now fin)).
 Proof. exact finishes_within_timeout. Qed.
 
+(* "when wait_init() returns normally every block's output differs from UNDEF": a start-up of the
+   model that succeeds has initialised every block *)
+Theorem C05_success_all_initialised : forall T s t,
+  run_init T = (s, t, true) -> forall b, (b < List.length T)%nat -> inited s b = true.
+Proof. exact success_all_initialised. Qed.
+
+(* "if some block cannot be initialised ... the simulation terminates with an error": a start-up
+   in which a failing init_regular was called - by one of the passes, by an event that arrived
+   early, from a saved state being restored or from an init_async task (places where errors are
+   otherwise only logged) - never succeeds *)
+Theorem C05_failing_regular_is_fatal : forall T s t,
+  run_init T = (s, t, true) ->
+  forall b, In (CRegular b) (ilog s) -> is_regular (spec_of T b) <> GRaises.
+Proof. exact failing_regular_is_fatal. Qed.
+
+(* non-vacuity: b0's init_regular raises; it is reached early through the event sent while b1
+   restores its state; b2 gives b0 an output later - the start-up fails all the same *)
+Example C05_fatal_nonvacuous :
+  let p := {| is_persistent := false; is_restore := RAbsent; is_async := None; is_regular := GNoEffect;
+              is_initdef := false; is_handler_sets := true; is_dests := [] |} in
+  let T := [ {| is_persistent := false; is_restore := RAbsent; is_async := None; is_regular := GRaises;
+                is_initdef := false; is_handler_sets := true; is_dests := [] |};
+             {| is_persistent := true; is_restore := RSets; is_async := None; is_regular := GNoEffect;
+                is_initdef := false; is_handler_sets := true; is_dests := [0%nat] |};
+             {| is_persistent := false; is_restore := RAbsent; is_async := None; is_regular := GNoEffect;
+                is_initdef := true; is_handler_sets := true; is_dests := [0%nat] |} ] in
+  snd (run_init T) = false /\ snd (run_init [p; p]) = false /\
+  snd (run_init [ {| is_persistent := false; is_restore := RAbsent; is_async := None; is_regular := GSets;
+                     is_initdef := false; is_handler_sets := true; is_dests := [1%nat] |}; p ]) = true.
+Proof. vm_compute. repeat split; reflexivity. Qed.
+
 (* NOT proved here: "whether start-up succeeds does not depend on the creation order" for the
    model.  It is decided per configuration by running the implementation in every creation order
    (icase_monitor, ic_perm_ok) - exhaustive for the sampled configurations, not a theorem. *)
@@ -63,3 +94,5 @@ Print Assumptions C05_async_only_if.
 Print Assumptions C05_async_once.
 Print Assumptions C05_async_wait_bound.
 Print Assumptions C05_finishes_within_timeout.
+Print Assumptions C05_success_all_initialised.
+Print Assumptions C05_failing_regular_is_fatal.
